@@ -45,9 +45,14 @@ type c17Injector struct {
 	failAt int
 	kinds  []string
 	sent   *c17Sentinel
+	paused bool       // invocations are neither counted nor failed (warm-up render)
+	loader *c17Loader // the loader that owns the templates of the engine built with this injector
 }
 
 func (in *c17Injector) hit(kind string) error {
+	if in.paused {
+		return nil
+	}
 	in.n++
 	in.kinds = append(in.kinds, kind)
 	if in.n == in.failAt {
@@ -63,8 +68,29 @@ func (in *c17Injector) hit(kind string) error {
 }
 
 type c17Loader struct {
-	m   map[string]string
-	inj *c17Injector
+	m     map[string]string
+	inj   *c17Injector
+	mtime int64
+}
+
+// GetModifiedTime makes the loader timestamp-aware (it only matters on engines with auto-reload on)
+func (l *c17Loader) GetModifiedTime(name string) (int64, error) {
+	if _, ok := l.m[name]; !ok {
+		return 0, fmt.Errorf("%w: %s", twig.ErrTemplateNotFound, name)
+	}
+	return l.mtime, nil
+}
+
+// c17Warm renders once without counting or failing anything, on an engine with auto-reload on, and then moves every
+// template's modification time forward: the render that follows finds its templates cached and stale, so every loader
+// read is a re-read of a template the engine already has.
+func c17Warm(e *twig.Engine, inj *c17Injector, main string, viaWriter bool) {
+	e.SetAutoReload(true)
+	inj.loader.mtime = 100
+	inj.paused = true
+	c17Render(e, main, viaWriter)
+	inj.paused = false
+	inj.loader.mtime = 200
 }
 
 func (l *c17Loader) Load(name string) (string, error) {
@@ -81,20 +107,22 @@ func (l *c17Loader) Exists(name string) bool { _, ok := l.m[name]; return ok }
 
 func c17Engine(srcs map[string]string, inj *c17Injector, debug bool) *twig.Engine {
 	e := twig.New()
+	own := &c17Loader{m: srcs, inj: inj}
+	inj.loader = own
 	// the loader that owns the templates stands alone, before, or after loaders that simply do not have them (chosen by
 	// the sources, so that every pass of one case builds the same engine)
 	switch core.Hash64(canonSrcs(srcs)) % 4 {
 	case 0:
-		e.RegisterLoader(&c17Loader{m: srcs, inj: inj})
+		e.RegisterLoader(own)
 	case 1:
-		e.RegisterLoader(&c17Loader{m: srcs, inj: inj})
+		e.RegisterLoader(own)
 		e.RegisterLoader(twig.NewArrayLoader(map[string]string{"unrelated_template": "u"}))
 	case 2:
 		e.RegisterLoader(twig.NewArrayLoader(map[string]string{"unrelated_template": "u"}))
-		e.RegisterLoader(&c17Loader{m: srcs, inj: inj})
+		e.RegisterLoader(own)
 	default:
 		e.RegisterLoader(twig.NewArrayLoader(map[string]string{"unrelated_template": "u"}))
-		e.RegisterLoader(&c17Loader{m: srcs, inj: inj})
+		e.RegisterLoader(own)
 		e.RegisterLoader(twig.NewChainLoader([]twig.Loader{twig.NewArrayLoader(map[string]string{"unrelated_template2": "u"})}))
 	}
 	for _, n := range []string{"sf1", "sf2", "spaceless"} {
@@ -217,13 +245,24 @@ func (p *c17) Run(rec *core.Recorder, seed uint64, idx int, tier string) {
 	srcs, main := p.build(r)
 	viaWriter := r.P(1, 3)
 	debug := r.P(1, 4)
-	path := fmt.Sprintf("writer=%v debug=%v", viaWriter, debug)
+	warm := r.P(1, 4)
+	path := fmt.Sprintf("writer=%v debug=%v warm=%v", viaWriter, debug, warm)
 	cs := map[string]any{"templates": srcs, "path": path}
+	if warm {
+		rec.Count("programs-on-warm-autoreload-engines", 1)
+	}
+	run := func(in *c17Injector) (string, error) {
+		e := c17Engine(srcs, in, debug)
+		if warm {
+			c17Warm(e, in, main, viaWriter)
+		}
+		return c17Render(e, main, viaWriter)
+	}
 	// ---- pass 0
 	inj := &c17Injector{}
 	var out0 string
 	var err0 error
-	panicked, site, val, stack := core.Guard(func() { out0, err0 = c17Render(c17Engine(srcs, inj, debug), main, viaWriter) })
+	panicked, site, val, stack := core.Guard(func() { out0, err0 = run(inj) })
 	twig.SetDebugLevel(twig.DebugOff)
 	if panicked {
 		rec.Violate("panic", "panic@"+site, "engine panicked: "+val, cs, stack)
@@ -242,7 +281,7 @@ func (p *c17) Run(rec *core.Recorder, seed uint64, idx int, tier string) {
 		in := &c17Injector{failAt: k}
 		var out string
 		var err error
-		panicked, site, val, stack := core.Guard(func() { out, err = c17Render(c17Engine(srcs, in, debug), main, viaWriter) })
+		panicked, site, val, stack := core.Guard(func() { out, err = run(in) })
 		twig.SetDebugLevel(twig.DebugOff)
 		rec.Count("injected-runs", 1)
 		if panicked {
